@@ -231,3 +231,33 @@ def describe(c, n=160):
         if c[0] == "exc":
             return f"raises {c[1]}: {c[2][:100]}"
     return _short(c, n)
+
+
+def fingerprint(obj):
+    """Cheap exact-content fingerprint of a world object, used by A1 to skip the full
+    canonical comparison when nothing changed.  Equal fingerprints <=> (up to hash
+    collisions) equal content incl. dtypes, column order, index and meta; a mismatch is
+    only a hint - the caller then falls back to canon() + diff(), which decides."""
+    import hashlib
+
+    h = hashlib.blake2b(digest_size=16)
+    data = getattr(obj, "data", None)
+    if isinstance(data, pd.DataFrame) and hasattr(obj, "meta"):
+        h.update(type(obj).__name__.encode())
+        h.update(repr(tuple(data.columns)).encode())
+        h.update(repr(tuple(str(t) for t in data.dtypes)).encode())
+        h.update(repr(type(data.index).__name__).encode())
+        try:
+            h.update(pd.util.hash_pandas_object(data, index=True).values.tobytes())
+        except Exception:  # noqa: BLE001
+            return None
+        meta = obj.meta if isinstance(obj.meta, dict) else {}
+        h.update(repr(sorted((str(k), repr(v)) for k, v in meta.items() if k not in META_EXEMPT)).encode())
+        return h.hexdigest()
+    if isinstance(obj, (list, tuple, dict, str, int, float)) or obj is None:
+        try:
+            h.update(repr(obj).encode())
+        except Exception:  # noqa: BLE001
+            return None
+        return (type(obj).__name__, h.hexdigest())
+    return None
